@@ -1,5 +1,6 @@
 import Rustemo.Proofs.GlrNoDup3
 import Rustemo.Proofs.GlrRun11
+import Rustemo.Model.GlrNoDupCert
 /-!
 # No duplicates under `LexDet`, from three facts about possibility lists
 -/
@@ -79,17 +80,6 @@ end Rustemo.Glr
 
 namespace Rustemo.Glr
 open Rustemo
-
-/-- executable `PossFacts` -/
-def possFactsB (g : Gss) : Bool :=
-  g.edges.toList.all fun ed =>
-    decide ed.poss.Nodup &&
-    ed.poss.all fun n => ed.poss.all fun n' =>
-      n == n' ||
-      (match g.nodes[n]?, g.nodes[n']? with
-       | some (.term _ _), some (.term _ _) => false
-       | some (.nonterm p _ _ C), some (.nonterm p' _ _ C') => p != p' || !(zipEq C C')
-       | _, _ => true)
 
 theorem possFactsB_sound (g : Gss) (h : possFactsB g = true) : PossFacts g := by
   unfold possFactsB at h
